@@ -7,6 +7,8 @@ package server_test
 import (
 	"bytes"
 	"context"
+	"runtime/debug"
+	"strings"
 	"testing"
 
 	"github.com/pilosa/pilosa"
@@ -37,10 +39,27 @@ func TestVerifC06_ClusterMessage(t *testing.T) {
 		c.Sample(map[string]interface{}{"message": req.desc})
 		var err error
 		var pv interface{}
+		inGenerated := false
 		func() {
-			defer func() { pv = recover() }()
+			defer func() {
+				if pv = recover(); pv != nil {
+					st := string(debug.Stack())
+					if i := strings.Index(st, "panic("); i >= 0 {
+						st = st[i:]
+					}
+					if j := strings.Index(st, "encoding/proto.Serializer.Unmarshal"); j >= 0 {
+						inGenerated = strings.Contains(st[:j], "/internal/private.pb.go") || strings.Contains(st[:j], "/internal/public.pb.go")
+					}
+				}
+			}()
 			err = m.API.ClusterMessage(context.Background(), bytes.NewReader(req.body))
 		}()
+		if pv != nil && inGenerated && vkit.Open("DP14") {
+			// the generated protobuf code (gogo 1.2.0) panics on a length near 2^63: finding DP14
+			vkit.Excluded("DP14")
+			c.Class("DP14-panic-in-generated-code")
+			return
+		}
 		if pv != nil {
 			t.Fatalf("API.ClusterMessage panics on %s: %v", req.desc, pv)
 		}
